@@ -114,7 +114,7 @@ impl World {
     pub(crate) async fn new(cfg: &WorldCfg) -> World {
         let (kernel_event_tx, kernel_event_rx) = mpsc::unbounded_channel::<kernel::KernelEvent>();
         let (bfd_event_tx, bfd_event_rx) = mpsc::unbounded_channel::<crate::bfd::BfdEvent>();
-        let global: GlobalHandle = Arc::new(tokio::sync::RwLock::new(Global::new(kernel_event_tx.clone(), bfd_event_tx)));
+        let global: GlobalHandle = GlobalHandle::new(Global::new(kernel_event_tx.clone(), bfd_event_tx));
         let tables: TableHandle = Arc::new(TableManager::new(cfg.shards.max(1)));
         let (active_tx, active_rx) = mpsc::unbounded_channel::<TcpStream>();
         let (passive_tx, passive_rx) = mpsc::unbounded_channel::<TcpStream>();
@@ -242,6 +242,14 @@ where
     Fut: std::future::Future<Output = vcore::Outcome>,
 {
     net::reset(seed);
+    // Scheduling points at the acquisitions of the daemon's global lock (event::verif::GlobalHandle):
+    // off in half of the runs, a yield after 10% or 40% of the acquisitions in the others. The rate is
+    // a function of the run's own seed, which the case records, so a replay schedules the same way.
+    net::set_yield_rate(match (seed >> 3) % 4 {
+        0 | 1 => 0,
+        2 => 100,
+        _ => 400,
+    });
     let mut bytes = [0u8; 32];
     bytes[..8].copy_from_slice(&seed.to_le_bytes());
     let rt = tokio::runtime::Builder::new_current_thread()
@@ -260,6 +268,10 @@ where
     out.steps += events;
     out.count("net.connects-ok", ok);
     out.count("net.connects-refused", refused);
+    let yields = net::with_net(|n| n.sched_yields);
+    if yields > 0 {
+        out.count("sched.yield-after-lock-acquisition", yields);
+    }
     // a panic inside a spawned DUT task is caught by tokio: surface it
     if vcore::panic_count() > panics_before && out.violation.is_none() {
         if let Some((loc, msg)) = vcore::take_panic() {
